@@ -19,7 +19,7 @@ func init() {
 		Props: []string{"C01", "C04"},
 		Min:   4,
 		Doc: "the receiver's per-file remaining counter counts the unset bits of the completion bitmap: it is initialised to the chunk total, set on resume to total minus CountSet() of the loaded bitmap (clamped), " +
-			"and decremented only where a bit was newly set (MarkCompleteIfUnset returned true) or no bitmap exists; any other source (e.g. the highest complete index, which ignores holes) finalises a file with chunks missing",
+			"and decremented only where a bit was newly set (MarkCompleteIfUnset returned true) or no bitmap exists; a sidecar is attached to a file's state only on paths that also set the counter (attach-adjusts, F34); any other source (e.g. the highest complete index, which ignores holes) finalises a file with chunks missing",
 		Run: runRemaining,
 	})
 	Register(&Rule{
@@ -235,6 +235,88 @@ func runRemaining(c *Ctx) {
 				return true
 			})
 		})
+	}
+	// (attach-adjusts, F34) a sidecar becomes the file's bitmap only together with the adjusted counter: from every assignment of a
+	// non-nil value to recvFileStateMux.sidecar every path reaches an assignment of .remaining (or the guard of one)
+	var scFld *types.Var
+	for i := 0; st != nil && i < st.NumFields(); i++ {
+		if st.Field(i).Name() == "sidecar" {
+			scFld = st.Field(i)
+		}
+	}
+	if scFld == nil {
+		c.MissingAnchor("transfer.recvFileStateMux.sidecar")
+		return
+	}
+	na := 0
+	for _, f := range p.FuncsIn("internal/transfer") {
+		info := f.Info()
+		cfg := f.CFG()
+		k2 := 0
+		cfg.EachNode(func(r NodeRef) {
+			as, ok := r.Node().(*ast.AssignStmt)
+			if !ok || len(as.Lhs) != len(as.Rhs) {
+				return
+			}
+			for i, l := range as.Lhs {
+				sel, ok := ast.Unparen(l).(*ast.SelectorExpr)
+				if !ok || info.Uses[sel.Sel] != scFld {
+					continue
+				}
+				if id, ok := ast.Unparen(as.Rhs[i]).(*ast.Ident); ok && id.Name == "nil" {
+					continue
+				}
+				na++
+				k2++
+				base := types.ExprString(sel.X)
+				setsRemaining := func(n ast.Node) bool {
+					hit := false
+					InspectNoLits(n, func(m ast.Node) bool {
+						if a2, ok := m.(*ast.AssignStmt); ok {
+							for _, l2 := range a2.Lhs {
+								if s2, ok := ast.Unparen(l2).(*ast.SelectorExpr); ok && info.Uses[s2.Sel] == fld && types.ExprString(s2.X) == base {
+									hit = true
+								}
+							}
+						}
+						return true
+					})
+					return hit
+				}
+				adjusted := allPathsHit(cfg, r, func(n ast.Node) bool {
+					if setsRemaining(n) {
+						return true
+					}
+					// the guard `if total >= skipped { x.remaining = total - skipped }`
+					if cond, ok := n.(ast.Expr); ok {
+						guarded := false
+						ast.Inspect(f.Body, func(x ast.Node) bool {
+							if is, ok := x.(*ast.IfStmt); ok && is.Cond == cond {
+								// only the clamp's own comparison of two integers, nothing conjoined to it
+								be, isCmp := ast.Unparen(is.Cond).(*ast.BinaryExpr)
+								if !isCmp || !(be.Op == token.GEQ || be.Op == token.LEQ || be.Op == token.GTR || be.Op == token.LSS) ||
+									!isIntType(info.TypeOf(be.X)) || !isIntType(info.TypeOf(be.Y)) {
+									return true
+								}
+								for _, bst := range is.Body.List {
+									if setsRemaining(bst) {
+										guarded = true
+									}
+								}
+							}
+							return true
+						})
+						return guarded
+					}
+					return false
+				}, func(ast.Node) bool { return false })
+				c.Check(adjusted, fmt.Sprintf("remaining/attach-adjusts/%s#%d", f.Name, k2), as.Pos(), "the sidecar is attached together with the adjusted remaining count",
+					"a loaded sidecar becomes the file's bitmap ("+types.ExprString(l)+" = "+types.ExprString(as.Rhs[i])+") on a path that does not take the chunks it marks off "+base+".remaining: those chunks are not counted when they arrive again (their bit is already set), the counter never reaches zero, no FileDone is sent and both sides wait for ever")
+			}
+		})
+	}
+	if na == 0 {
+		c.Bad("remaining/attach-adjusts/none", token.NoPos, "found no assignment to recvFileStateMux.sidecar")
 	}
 }
 
